@@ -25,13 +25,24 @@ def check_optimal(case):
     def fn(p, o):
         if not o.ok:
             return [("exception", f"{o.exc_type}@{o.where}")]
-        sums, bins = o.value
-        probs = preds.partition_problems(p, bins, case["numbins"])
-        if probs:
-            return probs
-        real_sums = preds.bin_sums(p, bins)
-        if sorted(real_sums) != sorted(sums):
-            return [("sums-do-not-describe-bins", f"{sums} vs {real_sums}")]
+        if case.get("out") == "Sums":
+            # the sums-only path (another bins-manager, in places another code path): the sums must be those of SOME partition of the
+            # items into numbins bins - at least the right count and total - and attain the optimum
+            real_sums = list(o.value)
+            if len(real_sums) != case["numbins"]:
+                return [("Sums:wrong-number-of-bins", f"{len(real_sums)} for numbins={case['numbins']}")]
+            if sum(real_sums) != sum(case["values"]):
+                return [("Sums:total-differs-from-the-items", f"{real_sums} vs total {sum(case['values'])}")]
+            if len(case["values"]) <= 10 and tuple(sorted(real_sums)) not in oracles.sum_vectors(case["values"], case["numbins"]):
+                return [("Sums:not-the-sums-of-any-partition", f"{sorted(real_sums)}")]
+        else:
+            sums, bins = o.value
+            probs = preds.partition_problems(p, bins, case["numbins"])
+            if probs:
+                return probs
+            real_sums = preds.bin_sums(p, bins)
+            if sorted(real_sums) != sorted(sums):
+                return [("sums-do-not-describe-bins", f"{sums} vs {real_sums}")]
         got = oracles.objective_value(spec, real_sums)[0]
         want = oracles.opt(case["values"], case["numbins"], spec)
         if got != want:
@@ -43,9 +54,10 @@ def check_optimal(case):
 def evaluate(case):
     alg, k, values = case["alg"], case["numbins"], case["values"]
     spec = spec_of(case)
-    labels = [f"alg={alg}", f"obj={spec.split(':')[0]}", f"profile={case.get('profile', '-')}", f"k={k}"]
+    ot = "Sums" if case.get("out") == "Sums" else "PartitionAndSumsTuple"
+    labels = [f"alg={alg}", f"obj={spec.split(':')[0]}", f"profile={case.get('profile', '-')}", f"k={k}", f"out={ot}"]
     labels += S.value_labels(values, k)
-    p, o = sut.run_case(case, "PartitionAndSumsTuple")
+    p, o = sut.run_case(case, ot)
     fails, inconclusive = [], None
     if not o.ok and common.rnp_known(PROP, case, o):
         fails.append(Failure(KNOWN_RNP, {"raised": o.exc_type, "where": o.where}))
@@ -53,7 +65,7 @@ def evaluate(case):
         fails.append(Failure(common.exception_bucket(PROP, alg, o), o.describe()))
     else:
         probs = check_optimal(case)(p, o)
-        if probs and alg == "ilp" and common.ilp_retry(case, "PartitionAndSumsTuple", check_optimal(case)):
+        if probs and alg == "ilp" and common.ilp_retry(case, ot, check_optimal(case)):
             inconclusive, probs = "solver-inconsistency", []
         fails += common.failures_from(PROP, alg, probs)
     # non-trivial: the LPT partition is not optimal for this objective (the search had to improve on its first leaf)
@@ -63,7 +75,7 @@ def evaluate(case):
     nontrivial = lpt_val != optimum
     if nontrivial:
         labels.append("LPT-not-optimal")
-    summary = o.describe() if not o.ok else {"sums": sut.jsonable(o.value[0]), "optimum": sut.jsonable(optimum),
+    summary = o.describe() if not o.ok else {"sums": sut.jsonable(o.value if ot == "Sums" else o.value[0]), "optimum": sut.jsonable(optimum),
                                               "lpt": sut.jsonable(lpt_val)}
     return Result(fails, labels, nontrivial, inconclusive, summary)
 
@@ -108,7 +120,24 @@ def exhaustive_cases(tier):
                         case = {"alg": alg, "values": list(values), "numbins": k, "pres": "list", "nseed": 0}
                         if opts:
                             case["opts"] = opts
+                        if (idx + env.seed()) % 3 == 0:
+                            case["out"] = "Sums"
                         yield case
+    # many bins, tiny values: complete greedy / ckk / snp with 5 and 6 bins (seen-state and pairing keys must keep multiplicities)
+    for n in range(2, 7):
+        for values in itertools.combinations_with_replacement(range(0, 5), n):
+            for k in (5, 6):
+                for alg, opts in ([("cg", {"objective": ob, "switches": sw}) for ob in S.CG_OBJECTIVES for sw in ([1, 1, 0, 1], [0, 0, 0, 1], [1, 1, 1, 1])]
+                                  + [("ckk", None), ("snp", None)]):
+                    idx += 1
+                    if quick and (idx * 2654435761 + env.seed()) % 12 != 0:
+                        continue
+                    case = {"alg": alg, "values": list(values), "numbins": k, "pres": "list", "nseed": 0}
+                    if opts:
+                        case["opts"] = opts
+                    if (idx + env.seed()) % 2 == 0:
+                        case["out"] = "Sums"
+                    yield case
 
 
 @st.composite
@@ -118,6 +147,8 @@ def random_cases(draw):
                                       profiles=["tiny", "small", "small", "medium", "large", "huge", "two-valued",
                                                 "one-dominant", "one-dominant", "planted", "planted", "planted",
                                                 "arithmetic", "all-equal"]))
+    if draw(st.integers(0, 2)) == 0:
+        case["out"] = "Sums"
     return case
 
 
@@ -128,7 +159,7 @@ def rnp_known_region(draw):
     return {"alg": "rnp", "values": values, "numbins": k, "pres": "list", "nseed": 0, "known_region": True}
 
 
-DEEP_SIZES = {3: 10, 4: 9, 5: 8}
+DEEP_SIZES = {2: 10, 3: 10, 4: 9, 5: 8, 6: 7}
 
 
 @st.composite
@@ -149,9 +180,20 @@ def deep_cases(draw):
     else:
         base = draw(st.sampled_from([10 ** 6, 2 ** 24, 10 ** 9]))
         values = [base * m + d for m, d in zip(S.splitmix(seed, n, 1, 4), S.splitmix(seed + 1, n, 0, 50))]
+    if draw(st.integers(0, 3)) == 0:
+        # many bins, small repeated values: 5-6 bins, 6-8 items from 0..12 with a few distinct values
+        k = draw(st.sampled_from([5, 5, 6]))
+        n = draw(st.integers(6, 8 if k == 5 else 7))
+        pool = draw(st.lists(st.integers(0, 12), min_size=2, max_size=4))
+        values = [pool[i % len(pool)] for i in S.splitmix(seed, n, 0, 11)]
+        profile = "many-bins-small-values"
+        if alg == "rnp" and k > 5:
+            alg = "snp"
     case = {"alg": alg, "values": values, "numbins": k, "pres": "list", "nseed": 0, "profile": "deep-" + profile}
     if alg == "cg":
         case["opts"] = {"objective": draw(st.sampled_from(S.CG_OBJECTIVES)), "switches": draw(st.sampled_from([[1, 1, 0, 1], [1, 1, 1, 1], [1, 0, 0, 1]]))}
+    if draw(st.integers(0, 2)) == 0:
+        case["out"] = "Sums"
     return case
 
 
@@ -178,6 +220,8 @@ def two_way_large_cases(draw):
         case["opts"] = {"objective": draw(st.sampled_from(S.CG_OBJECTIVES)), "switches": draw(st.sampled_from([[1, 1, 0, 1], [1, 1, 1, 1], [0, 1, 0, 1]]))}
     elif alg == "dp":
         case["opts"] = {"objective": draw(S.objective_specs(2))}
+    if draw(st.integers(0, 2)) == 0:
+        case["out"] = "Sums"
     return case
 
 
@@ -190,7 +234,7 @@ def valid_two_way(case):
 def valid_deep(case):
     if not cases.valid_partition_case(dict(case, alg="greedy")):
         return False
-    return case["alg"] in ("snp", "rnp", "ckk", "cg") and 2 <= case["numbins"] <= 5 and len(case["values"]) <= DEEP_SIZES.get(case["numbins"], 10)
+    return case["alg"] in ("snp", "rnp", "ckk", "cg") and 2 <= case["numbins"] <= 6 and len(case["values"]) <= DEEP_SIZES.get(case["numbins"], 10)
 
 
 def valid(case):
@@ -214,8 +258,9 @@ def legs(tier):
             scope="multisets(<=6 from 0..7) x numbins 1..4 x (dp,ilp x 3+2*|{1,2,k,k+1}| objectives; cg x 3 x 16; ckk; snp; rnp)"),
         Leg("deep", evaluate,
             "hypothesis: snp / rnp / ckk / complete greedy at the largest sizes the oracle covers (10 items x 3 bins, 9 x 4, 8 x 5) on "
-            "evenly spread values (1..40, 1..200, 1..10^6, near-equal large values); same oracle and non-triviality rule",
-            strategy=deep_cases(), n_quick=1600, n_thorough=40000, valid=valid_deep, floor=0.3),
+            "evenly spread values (1..40, 1..200, 1..10^6, near-equal large values), and with 5-6 bins on 6-8 small repeated values; a third of the "
+            "cases through the sums-only output type (another bins-manager); same oracle and non-triviality rule",
+            strategy=deep_cases(), n_quick=1600, n_thorough=40000, valid=valid_deep, floor=0.1),
         Leg("two-way-large", evaluate,
             "hypothesis: two bins, 11-16 items (complete greedy <= 14), values 1..200 / 1..1000 / near-equal large / planted: beyond the "
             "exhaustive envelope, with ground truth from a subset-sum DP (bitset); ckk, snp, rnp, complete greedy, dp and cbldm (default bound); "
